@@ -26,6 +26,8 @@ pub(crate) mod pipe;
 pub(crate) mod poll;
 pub(crate) mod process;
 pub(crate) mod sq;
+#[cfg(a10_verif)]
+pub(crate) mod verif_hooks;
 
 pub(crate) use config::Config;
 pub(crate) use cq::Completions;
@@ -278,6 +280,8 @@ impl Drop for Shared {
 }
 
 fn load_kernel_shared(ptr: ptr::NonNull<AtomicU32>) -> u32 {
+    #[cfg(a10_verif)]
+    verif_hooks::yield_point(verif_hooks::YIELD_LOAD_KERNEL_SHARED);
     // SAFETY: since the value is shared with the kernel we need to use Acquire
     // memory ordering.
     unsafe { (*ptr.as_ptr()).load(Ordering::Acquire) }
@@ -291,6 +295,10 @@ fn mmap(
     fd: libc::c_int,
     offset: libc::off_t,
 ) -> io::Result<ptr::NonNull<libc::c_void>> {
+    #[cfg(a10_verif)]
+    if let Some(hook) = verif_hooks::table().mmap {
+        return unsafe { hook(len, prot, flags, fd, offset) };
+    }
     let addr = match unsafe { libc::mmap(ptr::null_mut(), len, prot, flags, fd, offset) } {
         libc::MAP_FAILED => return Err(io::Error::last_os_error()),
         // SAFETY: mmap ensures the pointer is not null.
@@ -309,6 +317,10 @@ fn mmap(
 
 /// `munmap(2)` wrapper.
 pub(crate) fn munmap(addr: ptr::NonNull<libc::c_void>, len: libc::size_t) -> io::Result<()> {
+    #[cfg(a10_verif)]
+    if let Some(hook) = verif_hooks::table().munmap {
+        return unsafe { hook(addr, len) };
+    }
     match unsafe { libc::munmap(addr.as_ptr(), len) } {
         0 => Ok(()),
         _ => Err(io::Error::last_os_error()),
